@@ -6,7 +6,7 @@ correspondence merely searches harder (a larger case budget), because a changed 
 looking for.  `python3 tools/vlib/srcpin.py --pin` rewrites the pin (only ever by hand, after a fix: commit)."""
 import ast, hashlib, json, os, sys
 
-ROOT = "/verif"
+ROOT = os.environ.get("VERIF_ROOT", "/verif")
 PIN = os.path.join(ROOT, "tools", "srcpin.json")
 VER = "%d.%d" % sys.version_info[:2]      # ast.dump differs between interpreter versions: one pin per version
 
